@@ -563,6 +563,55 @@ func driveRedirect(c *lib.Ctx, srv *httpserver.Server, host string, okPorts, pla
 		}
 		c.Violation(key, what, ww)
 	}
+	// Concurrent pass: a redirect site that serves several names (wildcard or
+	// catch-all host) must send every request to ITS OWN host also when requests
+	// with different Host headers overlap.
+	if (host == "" || strings.Contains(host, "*")) && c.Get("redirect_sites_driven_concurrently") < 150 {
+		c.Count("redirect_sites_driven_concurrently", 1)
+		var names []string
+		for i := 0; i < 4; i++ {
+			if host == "" {
+				names = append(names, fmt.Sprintf("c%d.verif.example", i))
+			} else {
+				names = append(names, strings.Replace(host, "*", fmt.Sprintf("w%d", i), -1))
+			}
+		}
+		var wg sync.WaitGroup
+		var mu sync.Mutex
+		for g, name := range names {
+			wg.Add(1)
+			go func(g int, name string) {
+				defer wg.Done()
+				for i := 0; i < 250; i++ {
+					t := fmt.Sprintf("/c/%d/%d?g=%d", g, i, g)
+					r := httptest.NewRequest("GET", t, nil)
+					r.Host = name
+					r.RemoteAddr = "192.0.2.7:40000"
+					rec := httptest.NewRecorder()
+					srv.Server.Handler.ServeHTTP(rec, r)
+					c.Count("redirect_responses_checked_concurrently", 1)
+					loc := rec.Header().Get("Location")
+					key, what := judgeLocation(rec.Code, loc, name, t, okPorts, plainPorts, undeclared, "443", "80")
+					if key == "" {
+						continue
+					}
+					mu.Lock()
+					dup := seen[key+"/concurrent"]
+					seen[key+"/concurrent"] = true
+					mu.Unlock()
+					if dup {
+						continue
+					}
+					ww := map[string]interface{}{"exchange": exchange{"GET", t, name, rec.Code, loc}, "concurrent_hosts": names}
+					for k, v := range w {
+						ww[k] = v
+					}
+					c.Violation(key+"/concurrent", what+" (with requests for "+fmt.Sprint(len(names))+" different hosts overlapping)", ww)
+				}
+			}(g, name)
+		}
+		wg.Wait()
+	}
 	return seen
 }
 
